@@ -241,6 +241,26 @@ func asiForms() []stmtForm {
 		{"index", func() *N { return ex(n("Index", "", id("a"), num("0"))) }},
 		{"regex", func() *N { return ex(n("Dot", "p", syntax.RegexLit("r", "g"))) }},
 		{"regexend", func() *N { return ex(n("Assign", "=", id("a"), syntax.RegexLit("r", ""))) }},
+		// every kind of statement-ending token in its odd spellings
+		{"regexeq", func() *N { return ex(n("Assign", "=", id("a"), syntax.RegexLit("=r", ""))) }},
+		{"regexeqstart", func() *N { return ex(syntax.RegexLit("=r", "")) }},
+		{"regexflags", func() *N { return ex(n("Assign", "=", id("a"), syntax.RegexLit("=r", "gi"))) }},
+		{"regexclass", func() *N { return ex(n("Assign", "=", id("a"), syntax.RegexLit("[/]", ""))) }},
+		{"numdot", func() *N { return ex(n("Assign", "=", id("a"), syntax.NumLit("1.", 1))) }},
+		{"dotnum", func() *N { return ex(n("Assign", "=", id("a"), syntax.NumLit(".5", 0.5))) }},
+		{"hexnum", func() *N { return ex(n("Assign", "=", id("a"), syntax.NumLit("0x1f", 31))) }},
+		{"expnum", func() *N { return ex(n("Assign", "=", id("a"), syntax.NumLit("1e3", 1000))) }},
+		{"octnum", func() *N { return ex(n("Assign", "=", id("a"), syntax.NumLit("017", 15))) }},
+		{"strcont", func() *N { return ex(n("Assign", "=", id("a"), syntax.StrLit("\"s\\\nt\"", GoUnits("st")))) }},
+		{"strsq", func() *N { return ex(n("Assign", "=", id("a"), syntax.StrLit("'q'", GoUnits("q")))) }},
+		{"true", func() *N { return ex(n("Assign", "=", id("a"), n("True", ""))) }},
+		{"paren", func() *N {
+			return ex(n("Assign", "=", id("a"), n("Binary", "*", n("Binary", "+", id("b"), id("c")), id("d"))))
+		}},
+		{"parenend", func() *N { return ex(n("Binary", "*", id("d"), n("Binary", "+", id("b"), id("c")))) }},
+		{"arrayend", func() *N { return ex(n("Assign", "=", id("a"), n("Array", ""))) }},
+		{"kwname", func() *N { return ex(n("Assign", "=", id("a"), n("Dot", "in", id("b")))) }},
+		{"newnoargs", func() *N { return ex(n("Assign", "=", id("a"), newNoArgs(id("B")))) }},
 		{"string", func() *N { return ex(syntax.StrLit(`"s"`, GoUnits("s"))) }},
 		{"number", func() *N { return ex(num("1")) }},
 		{"this", func() *N { return ex(n("This", "")) }},
@@ -452,6 +472,10 @@ func runRestricted(r *engine.Run) {
 		{"do-while", "do a ; while ( b )%sc", program(n("Do", "", ex(a), b), id("c"))},
 		{"if-else", "if ( a ) b%selse c", program(n("If", "", a, ex(b), ex(id("c"))))},
 		{"regex-next", "a = /r/%sg", program(n("Assign", "=", a, syntax.RegexLit("r", "")), id("g"))},
+		{"regexeq-next", "a = /=r/%sg", program(n("Assign", "=", a, syntax.RegexLit("=r", "")), id("g"))},
+		{"regexeq-next2", "/=r/%sg = 1", program(syntax.RegexLit("=r", ""), n("Assign", "=", id("g"), num("1")))},
+		{"regexeq-inc", "a = /=r/%s++ b", program(n("Assign", "=", a, syntax.RegexLit("=r", "")), n("Unary", "++", b))},
+		{"numdot-next", "a = 1.%sb", program(n("Assign", "=", a, syntax.NumLit("1.", 1)), b)},
 		{"block-next", "{ a%s}%sb", program(blk(ex(a)), b)},
 		{"in-next", "a%sin b", program(n("Binary", "in", a, b))},
 		{"typeof-next", "typeof%sa", program(n("Unary", "typeof", a))},
@@ -476,4 +500,163 @@ func runRestricted(r *engine.Run) {
 		}
 	}
 	r.Bound("line terminators", fmt.Sprint(len(lts)))
+}
+
+// nestConstruct wraps a statement list in a construct that carries parser
+// scope state (inSwitch, inIteration, inFunction, labels, allowIn).
+type nestConstruct struct {
+	name string
+	wrap func(depth int, body []*N) *N
+}
+
+func nestConstructs() []nestConstruct {
+	lab := func(d int) string { return fmt.Sprintf("L%d", d) }
+	b := func(body []*N) *N { return blk(body...) }
+	return []nestConstruct{
+		{"switch", func(d int, body []*N) *N {
+			c := n("Case", "", num("1"))
+			c.Kids = append(c.Kids, body...)
+			return n("Switch", "", id("s"), c, n("Case", "", num("2"), ex(id("z"))))
+		}},
+		{"switchdefault", func(d int, body []*N) *N {
+			c := n("Case", "", nil)
+			c.Kids = append(c.Kids, body...)
+			return n("Switch", "", id("s"), n("Case", "", num("1")), c)
+		}},
+		{"while", func(d int, body []*N) *N { return n("While", "", id("c"), b(body)) }},
+		{"do", func(d int, body []*N) *N { return n("Do", "", b(body), id("c")) }},
+		{"for", func(d int, body []*N) *N {
+			return n("For", "", n("Var", "", decl("i", n("Index", "", id("o"), inExpr()))), nil, nil, b(body))
+		}},
+		{"forin", func(d int, body []*N) *N { return n("ForIn", "", id("k"), id("o"), b(body)) }},
+		{"labelloop", func(d int, body []*N) *N { return n("Label", lab(d), n("For", "", nil, nil, nil, b(body))) }},
+		{"labelwhile1", func(d int, body []*N) *N {
+			if len(body) == 1 {
+				return n("Label", lab(d), n("While", "", id("c"), body[0]))
+			}
+			return n("Label", lab(d), n("While", "", id("c"), b(body)))
+		}},
+		{"labelblock", func(d int, body []*N) *N { return n("Label", lab(d), b(body)) }},
+		{"labelswitch", func(d int, body []*N) *N {
+			c := n("Case", "", num("1"))
+			c.Kids = append(c.Kids, body...)
+			return n("Label", lab(d), n("Switch", "", id("s"), c))
+		}},
+		{"funcexpr", func(d int, body []*N) *N { return ex(n("Assign", "=", id("h"), fn(nil, body...))) }},
+		{"funccall", func(d int, body []*N) *N { return ex(n("Call", "", fn([]string{"p"}, body...), id("q"))) }},
+		{"getter", func(d int, body []*N) *N {
+			return ex(n("Assign", "=", id("h"), n("Object", "", prop("get", "g", GoUnits("g"), fn(nil, body...)))))
+		}},
+		{"try", func(d int, body []*N) *N { return n("Try", "", b(body), n("Catch", "e", blk()), nil) }},
+		{"catch", func(d int, body []*N) *N { return n("Try", "", blk(), n("Catch", "e", b(body)), nil) }},
+		{"finally", func(d int, body []*N) *N { return n("Try", "", blk(), nil, b(body)) }},
+		{"if", func(d int, body []*N) *N { return n("If", "", id("c"), b(body), nil) }},
+		{"else", func(d int, body []*N) *N { return n("If", "", id("c"), n("Empty", ""), b(body)) }},
+		{"block", func(d int, body []*N) *N { return b(body) }},
+		{"with", func(d int, body []*N) *N { return n("With", "", id("w"), b(body)) }},
+	}
+}
+
+// nestJumps: statements whose legality or shape depends on the state of the
+// enclosing constructs (nil = none).
+func nestJumps() []func() *N {
+	return []func() *N{
+		nil,
+		func() *N { return n("Break", "") },
+		func() *N { return n("Continue", "") },
+		func() *N { return n("Return", "", nil) },
+		func() *N { return n("Return", "", inExpr()) },
+		func() *N { return n("Break", "L0") },
+		func() *N { return n("Continue", "L0") },
+		func() *N { return n("Break", "L1") },
+		func() *N { return n("Continue", "L1") },
+		func() *N { return ex(inExpr()) },
+		func() *N { return n("For", "", n("Cond", "", id("a"), inExpr(), id("d")), nil, nil, n("Break", "")) },
+	}
+}
+
+// runNesting: parser scope state must be restored, not reset, when a nested
+// construct ends. O{ M{ I{ j1 } j2 } j3 }: every outer x middle x inner
+// construct, with a jump statement (or an `in` expression) after the inner and
+// after the middle construct; the reference keeps the valid programs.
+func runNesting(r *engine.Run) {
+	h := &harness{r: r}
+	cs := nestConstructs()
+	js := nestJumps()
+	inner := append([]nestConstruct{{"none", nil}}, cs...)
+	j1s := []func() *N{nil, func() *N { return n("Break", "") }}
+	if !r.Thorough() {
+		// quick: a representative inner set and no jump inside the innermost body
+		keep := map[string]bool{"none": true, "switch": true, "while": true, "labelloop": true, "labelblock": true, "funcexpr": true, "for": true}
+		var in2 []nestConstruct
+		for _, c := range inner {
+			if keep[c.name] {
+				in2 = append(in2, c)
+			}
+		}
+		inner = in2
+		j1s = j1s[:1]
+	}
+	valid, invalid := 0, 0
+	for _, o := range cs {
+		for _, m := range cs {
+			for _, i := range inner {
+				for j1i, j1 := range j1s {
+					for j2i, j2 := range js {
+						for j3i, j3 := range js {
+							if j2 == nil && j3 == nil && j1 == nil {
+								continue
+							}
+							key := fmt.Sprintf("%s/%s/%s/%d.%d.%d", o.name, m.name, i.name, j1i, j2i, j3i)
+							if !r.MineKey(key) {
+								continue
+							}
+							ib := []*N{ex(id("x"))}
+							if j1 != nil {
+								ib = append(ib, j1())
+							}
+							var mb []*N
+							if i.wrap != nil {
+								mb = append(mb, i.wrap(2, ib))
+							} else {
+								mb = append(mb, ib...)
+							}
+							if j2 != nil {
+								mb = append(mb, j2())
+							}
+							ob := []*N{m.wrap(1, mb)}
+							if j3 != nil {
+								ob = append(ob, j3())
+							}
+							ob = append(ob, ex(id("y")))
+							T := program(o.wrap(0, ob))
+							toks, err := syntax.Tokens(T, syntax.RenderOpts{})
+							if err != nil {
+								r.Skip()
+								continue
+							}
+							src := syntax.Join(toks, false)
+							if !syntax.Parse(src, syntax.Options{}).Accepted() {
+								invalid++
+								r.Skip() // the jump is not legal there: C04's business
+								continue
+							}
+							valid++
+							h.check(key, T, src)
+							if r.Thorough() {
+								h.check(key+"/compact", T, syntax.Join(toks, true))
+							}
+						}
+					}
+				}
+			}
+		}
+		if r.Expired() {
+			r.Cap("time budget reached in nesting")
+			return
+		}
+	}
+	r.Bound("constructs", fmt.Sprint(len(cs)))
+	r.Bound("inner", fmt.Sprint(len(inner)))
+	r.Note(fmt.Sprintf("shard %d: %d valid nestings compared, %d invalid skipped", r.Shard, valid, invalid))
 }
